@@ -99,8 +99,15 @@ def check_tiling(tt, offs, T, case, deep=True):
     if not deep:
         return
     # crop to a block of tiles == tiling of the cropped rectangle, indices re-based
-    for r0, r1 in itertools.combinations(range(R + 1), 2):
-        for c0, c1 in itertools.combinations(range(C + 1), 2):
+    rr = list(itertools.combinations(range(R + 1), 2))
+    cc = list(itertools.combinations(range(C + 1), 2))
+    if len(rr) * len(cc) > 600:
+        # large tilings (only reachable from the Hypothesis sub-checks, and where the shrinker drives tile sizes
+        # to 1): a deterministic subset of crops keeps a case bounded
+        rr = [p for p in rr if p[0] in (0, 1, R // 2) or p[1] in (R, R - 1)][:40]
+        cc = [p for p in cc if p[0] in (0, 1, C // 2) or p[1] in (C, C - 1)][:15]
+    for r0, r1 in rr:
+        for c0, c1 in cc:
             sub = tt.crop((slice(r0, r1), slice(c0, c1)))
             y0, x0 = oy[r0][0], ox[c0][0]
             require(tuple(sub.shape.yx) == (r1 - r0, c1 - c0), "crop[%d:%d,%d:%d] shape %r", r0, r1, c0, c1, tuple(sub.shape.yx))
